@@ -10,7 +10,7 @@ from .core import (I, R, B, C, Ctx, SArr, SInt, SReal, SBool, SNan, Unsupported,
 newaxis = None
 nan = float('nan')
 inf = float('inf')
-PI = z3.Real('pi')           # 3.14159 < pi < 3.1416 assumed by harnesses that use it
+PI = z3.Real('pi_const')     # 3.14159 < pi < 3.1416 assumed by harnesses that use it
 pi = SReal(PI)
 bool_ = bool
 int64 = int
@@ -1030,12 +1030,30 @@ def amin(a, axis=None):
 
 
 def cumsum(a, axis=0):
+    """ASSUMED np.cumsum along axis 0: c[0] = a[0], c[k] = c[k-1] + a[k]  (also tied to the spec function sumR / sumI)"""
     a = _arr(a)
+    if a.ndim > 2 or axis != 0:
+        raise Unsupported('cumsum pattern')
+    c = C()
+    rk = 'f' if a.kind == 'f' else 'i'
+    n = a.shape_e[0]
     if a.ndim == 1:
-        return SArr(a.shape_e, lambda i: _sum1(a.elem, i + 1, a.kind), 'f' if a.kind == 'f' else 'i')
-    if a.ndim == 2 and axis == 0:
-        return SArr(a.shape_e, lambda i, j: _sum1(lambda t: a.elem(t, j), i + 1, a.kind), 'f' if a.kind == 'f' else 'i')
-    raise Unsupported('cumsum pattern')
+        CS = c.fresh_fun('cumsum', I, SORT[rk])
+        k = _qv(1)[0]
+        c.assume(CS(0) == a.elem(z3.IntVal(0)))
+        c.assume(z3.ForAll([k], z3.Implies(z3.And(1 <= k, k < n), CS(k) == CS(k - 1) + a.elem(k)), patterns=[CS(k)]))
+        c.assume(z3.ForAll([k], z3.Implies(z3.And(0 <= k, k < n), CS(k) == _sum1(a.elem, k + 1, a.kind)), patterns=[CS(k)]))
+        return SArr(a.shape_e, lambda i: CS(i), rk)
+    CS = c.fresh_fun('cumsum', I, I, SORT[rk])
+    k, j = _qv(2)
+    m = a.shape_e[1]
+    c.assume(z3.ForAll([j], z3.Implies(z3.And(0 <= j, j < m), CS(0, j) == a.elem(z3.IntVal(0), j)), patterns=[CS(0, j)]))
+    c.assume(z3.ForAll([k, j], z3.Implies(z3.And(1 <= k, k < n, 0 <= j, j < m), CS(k, j) == CS(k - 1, j) + a.elem(k, j)), patterns=[CS(k, j)]))
+    cm = concrete(m)
+    if cm is not None and cm <= 4:
+        for jj in range(cm):
+            c.assume(z3.ForAll([k], z3.Implies(z3.And(0 <= k, k < n), CS(k, jj) == _sum1(lambda t, jj=jj: a.elem(t, z3.IntVal(jj)), k + 1, a.kind)), patterns=[CS(k, jj)]))
+    return SArr(a.shape_e, lambda i, jx: CS(i, jx), rk)
 
 
 def gradient(a, axis=0):
